@@ -894,6 +894,155 @@ func multiCases(r *hx.Rand) {
 	}
 }
 
+// ---------------------------------------------------------------- incremental history on ONE Builder
+
+// addPart adds values [from,to) of every point's numerator and denominator samples.
+func addPart(b *benchseries.Builder, pts []point, cut []([2]int), second bool) {
+	for i, p := range pts {
+		bn := "B" + strconv.Itoa(i)
+		s := i % 2
+		add := func(role string, v float64) {
+			b.Add(res{bench: bn, exp: "2021-01-01T00:00:00Z", ser: stampsA[s], role: role, nh: "n" + strconv.Itoa(s), dh: "d", units: []string{"ns/op"}, vals: []float64{v}}.toResult())
+		}
+		nu, de := p.nu[:cut[i][0]], p.de[:cut[i][1]]
+		if second {
+			nu, de = p.nu[cut[i][0]:], p.de[cut[i][1]:]
+		}
+		for _, v := range nu {
+			add("num", v)
+		}
+		for _, v := range de {
+			add("den", v)
+		}
+	}
+}
+
+// incrCase: add part 1, build + summarise, add part 2 (landing in cells that were already built, sorted and
+// hashed), build + summarise again.  The final summaries must be those of a fresh Builder given all results
+// (a summary is a function of the point's final samples), and equal the model's, seeded from the final samples.
+func incrCase(pts []point, cut []([2]int), conf float64, n int, tag string) {
+	cid := id
+	id++
+	defer func() {
+		if e := recover(); e != nil {
+			hx.Printf("crash %d %s\n", cid, strings.ReplaceAll(fmt.Sprint(e), "\n", " "))
+		}
+	}()
+	// the reference: everything added to a fresh Builder
+	fresh, benchNames, serNames := buildPoints(pts)
+	var enc []string
+	for i, p := range pts {
+		c, ok := fresh.ComparisonAt(benchNames[i], serNames[i])
+		if !ok {
+			panic("no comparison")
+		}
+		rng := rand.New(rand.NewSource(benchseries.VerifSeed(c)))
+		var stream []string
+		for k := 0; k < n; k++ {
+			for range p.nu {
+				stream = append(stream, strconv.Itoa(rng.Intn(len(p.nu))))
+			}
+			for range p.de {
+				stream = append(stream, strconv.Itoa(rng.Intn(len(p.de))))
+			}
+		}
+		enc = append(enc, bitsList(p.nu)+";"+bitsList(p.de)+";"+strings.Join(stream, ","))
+	}
+	hx.Printf("case %d kind=multi conf=%s n=%d pts=%s tag=%s\n", cid, hx.F64(conf), n, strings.Join(enc, "|"), tag)
+	fresh.AddSummaries(conf, n)
+	// the history on one Builder
+	b := newBuilder(0)
+	addPart(b, pts, cut, false)
+	css, err := b.AllComparisonSeries(nil, benchseries.DUPE_REPLACE)
+	if err != nil {
+		panic(err)
+	}
+	for _, cs := range css {
+		cs.AddSummaries(conf, n)
+	}
+	addPart(b, pts, cut, true)
+	css, err = b.AllComparisonSeries(nil, benchseries.DUPE_REPLACE)
+	if err != nil || len(css) != 1 {
+		panic(fmt.Sprint("incremental rebuild failed: ", err))
+	}
+	cs := css[0]
+	cs.AddSummaries(conf, n)
+	var sums, same, in []string
+	for i, p := range pts {
+		sum, ok := cs.SummaryAt(benchNames[i], serNames[i])
+		ref, ok2 := fresh.SummaryAt(benchNames[i], serNames[i])
+		if !ok || !ok2 || sum == nil || ref == nil {
+			panic("no summary")
+		}
+		sums = append(sums, sumBits(sum))
+		if sumBits(ref) == sumBits(sum) {
+			same = append(same, "1")
+		} else {
+			same = append(same, "0")
+		}
+		pos := true
+		for _, v := range append(append([]float64{}, p.nu...), p.de...) {
+			if !(v > 0) || math.IsInf(v, 0) {
+				pos = false
+			}
+		}
+		if !pos {
+			in = append(in, "n")
+			continue
+		}
+		mn := func(a []float64) (lo, hi float64) {
+			lo, hi = a[0], a[0]
+			for _, v := range a {
+				lo, hi = math.Min(lo, v), math.Max(hi, v)
+			}
+			return
+		}
+		nl, nh := mn(p.nu)
+		dl, dh := mn(p.de)
+		lo, hi := nl/dh, nh/dl
+		if lo <= sum.Low && sum.Low <= hi && lo <= sum.Center && sum.Center <= hi && lo <= sum.High && sum.High <= hi {
+			in = append(in, "1")
+		} else {
+			in = append(in, "0")
+		}
+	}
+	hx.Printf("obs %d sums=%s\n", cid, strings.Join(sums, ","))
+	hx.Printf("sobs %d same=%s in=%s\n", cid, strings.Join(same, ""), strings.Join(in, ""))
+}
+
+func incrCases(r *hx.Rand) {
+	incrCase([]point{{[]float64{10, 11, 12, 13}, []float64{20, 21, 23}}}, [][2]int{{2, 2}}, 0.95, 10, "corpus+incr")
+	incrCase([]point{{[]float64{10, 14, 12}, []float64{20, 21, 23, 19}}, {[]float64{5, 6}, []float64{7, 9, 8}}}, [][2]int{{1, 3}, {2, 1}}, 0.9, 5, "corpus+incr")
+	ni := hx.N(100, 1500)
+	confs := []float64{0.95, 0.9, 0.99, 0.8, 0.5}
+	for i := 0; i < ni; i++ {
+		k := 1 + r.Intn(4)
+		kind := r.Intn(4)
+		var pts []point
+		var cut [][2]int
+		tag := "incr"
+		for j := 0; j < k; j++ {
+			p := point{genSample(r, 2+r.Intn(5), kind), genSample(r, 2+r.Intn(5), kind)}
+			pts = append(pts, p)
+			// part 1 holds at least one value of each role for most points (so the cells are built and hashed),
+			// sometimes a whole role or the whole point arrives only in part 2
+			c := [2]int{1 + r.Intn(len(p.nu)-1), 1 + r.Intn(len(p.de)-1)}
+			switch r.Intn(8) {
+			case 0:
+				c[0] = 0
+			case 1:
+				c[1] = 0
+			case 2:
+				c = [2]int{0, 0}
+			case 3:
+				c = [2]int{len(p.nu), len(p.de)}
+			}
+			cut = append(cut, c)
+		}
+		incrCase(pts, cut, hx.Pick(r, confs), []int{2, 3, 5, 10}[r.Intn(4)], tag)
+	}
+}
+
 func genSample(r *hx.Rand, n int, kind int) []float64 {
 	out := make([]float64, n)
 	base := float64(1 + r.Intn(1000))
@@ -1175,5 +1324,6 @@ func main() {
 	}
 	bootstrapCases(r)
 	multiCases(r)
+	incrCases(r)
 	dateCases(r)
 }
